@@ -147,11 +147,13 @@ func ViewMatrix() *m.Design {
 		Views: []*m.View{
 			{Name: "default", Fields: vf("title", "", "code", "", "l1", "", "l2", "tiny", "l3", "extended", "many", "", "l4", "", "lots", "")},
 			{Name: "alt", Fields: vf("title", "", "code", "", "l1", "tiny", "l2", "", "l3", "tiny", "many", "tiny", "l4", "default", "lots", "default")},
+			// alt2 lists exactly the attributes of alt, in the same order, and differs only in the views of the nested result types
+			{Name: "alt2", Fields: vf("title", "", "code", "", "l1", "extended", "l2", "tiny", "l3", "", "many", "extended", "l4", "tiny", "lots", "tiny")},
 			{Name: "rev", Fields: vf("l3", "extended", "title", "", "l1", "", "l2", "tiny", "lots", "tiny", "l4", "extended")},
 			{Name: "one", Fields: vf("title", "", "l2", "extended", "l4", "")},
 		}}
 	trees := &m.UserType{Name: "TreeCollection", Var: "vtrees", Result: true, CollectionOf: "Tree", Attr: arr(m.UserRef("Tree")),
-		Views: []*m.View{{Name: "default"}, {Name: "alt"}, {Name: "rev"}, {Name: "one"}}}
+		Views: []*m.View{{Name: "default"}, {Name: "alt"}, {Name: "alt2"}, {Name: "rev"}, {Name: "one"}}}
 	// a result type with a single view that leaves out an attribute with a default
 	planDefault := value.Str("free")
 	plan := str()
@@ -176,7 +178,7 @@ func ViewMatrix() *m.Design {
 		Types: []*m.UserType{leaf, tree, trees, solo, solos, session},
 		// getlate: a method that leaves the view to the service, declared after methods that fix one for the same type
 		Services: []*m.Service{{Name: "viewmatrix", HasHTTP: true, Methods: []*m.Method{get("get", "", "Tree"), get("getalt", "alt", "Tree"), get("getrev", "rev", "Tree"), get("getlate", "", "Tree"), get("list", "", "TreeCollection"), get("getsolo", "", "Solo"), get("listsolos", "", "SoloCollection"), getSession}}},
-		Features: []string{"fixed-design:view-matrix", "result-type", "views", "nested-view-override", "sibling-nested-views", "collection", "viewed-result-in-cookie-and-header", "view-left-open-after-fixed-view"}}
+		Features: []string{"fixed-design:view-matrix", "result-type", "views", "nested-view-override", "sibling-nested-views", "collection", "viewed-result-in-cookie-and-header", "view-left-open-after-fixed-view", "two-views-same-attributes-different-nested-views"}}
 }
 
 // GRPCMatrix is a fixed gRPC design crossing the message shapes random designs
